@@ -1,7 +1,7 @@
 """C18 — spinlock: mutual exclusion, FIFO ticket order, trylock never steals (structural part)."""
 from core import strip, is_field, order_ge, key_str
 from facts import AnalysisBroken
-from rules import (nodeset, ev, Unevaluable, atom_from, reach, atomic_ops, ret_const)
+from rules import (check_init, nodeset, ev, Unevaluable, atom_from, reach, atomic_ops, ret_const)
 from symword import Machine
 import stale
 
@@ -144,3 +144,4 @@ def run(ctx):
                 if (fn.name, fld, kind) not in allowed:
                     bad = bad or ("`%s` in %s" % (s.node.text, fn.name), s.node)
     o.check(bad is None, "writers table", "unexpected writer " + (bad[0] if bad else ""), site=bad[1] if bad else None, construct="spinlock writer")
+    check_init(ctx, P, "fiber_spinlock_init", [("fiber_spinlock_internal_t", "blob", 0)])
